@@ -95,6 +95,12 @@ def property_variants():
     out.append(("class M{a:int} default={a:1}", cls("M", base, default={"a": 1})))
     out.append(("class M{a:int} default={a:true}", cls("M", base, default={"a": True})))
     out.append(("class M{a:int} description", cls("M", base, description="d")))
+    for label, kw in (("addl=String()", {"additionalProperties": String()}), ("addl=Integer()", {"additionalProperties": Integer()}), ("addl=String(minLength=1)", {"additionalProperties": String(minLength=1)}),
+                      ("propertyNames=String(maxLength=4)", {"propertyNames": String(maxLength=4)}), ("propertyNames=String(maxLength=40)", {"propertyNames": String(maxLength=40)}),
+                      ("patternProperties ^x int", {"patternProperties": {"^x": Integer()}}), ("patternProperties ^x str", {"patternProperties": {"^x": String()}}),
+                      ("dependencies a->Element(required b)", {"dependencies": {"a": Element(required=["b"])}}), ("dependencies a->Element(required c)", {"dependencies": {"a": Element(required=["c"])}})):
+        out.append(("class M{a:int} %s" % label, cls("M", base, **kw)))
+        out.append(("Array(class M{a:int} %s)" % label, (lambda kw=kw: Array(cls("M", base, **kw)()))))
     out.append(("class M{} ", cls("M", {})))
     def inherit(kind):
         def f():
@@ -172,7 +178,7 @@ def pool():
     return _POOL
 
 
-VALUES = VAL.V + VAL.V_OBJ[:24] + [NP, {"z": 1}, {"z": 1, "y": 2}, {"z": 1, "y": 2, "b": 3}, {"a": "x", "z": 1}, {"a": "x", "z": 1, "y": 0, "b": "no"}, {"value": 1}, {"x1": "s", "value": 2}]
+VALUES = VAL.V + VAL.V_OBJ[:24] + [NP, {"a": 1, "q": "s"}, {"a": 1, "q": 2}, {"a": 1, "longname": 1}, {"a": 1, "x1": 1}, {"a": 1, "x1": "s"}, [{"a": 1, "q": "s"}], [{"a": 1, "q": 2}], {"a": 1, "c": 1}, {"z": 1}, {"z": 1, "y": 2}, {"z": 1, "y": 2, "b": 3}, {"a": "x", "z": 1}, {"a": "x", "z": 1, "y": 0, "b": "no"}, {"value": 1}, {"x1": "s", "value": 2}]
 
 
 def strip_titles(doc):
